@@ -163,6 +163,46 @@ func rulesC08(p *Prog, r *Report) {
 		}
 		return constBool(args[idx])
 	}
+	// unexported bookkeeping helpers that only lend-keeper functions call are analysed inside
+	// their callers (virtual inlining), not on their own
+	inFns := map[*ssa.Function]bool{}
+	for _, f := range fns {
+		inFns[f] = true
+	}
+	isInlined := func(f *ssa.Function) bool {
+		if f.Object() == nil || f.Object().Exported() || f.Parent() != nil {
+			return false
+		}
+		sites := p.CallSitesOf(f)
+		if len(sites) == 0 {
+			return false
+		}
+		for _, cs := range sites {
+			if cs.Parent() == nil || !inFns[cs.Parent()] {
+				return false
+			}
+		}
+		return true
+	}
+	type vcall struct {
+		c  ssa.CallInstruction
+		tr func(string) string
+	}
+	vstop := map[*ssa.Function]bool{}
+	for _, f := range p.Funcs {
+		if moduleOf(f) == "lend" && !isInlined(f) {
+			vstop[f] = true
+		}
+	}
+	vcalls := func(f *ssa.Function) []vcall {
+		var out []vcall
+		for _, vs := range p.virtualSites(f, vstop) {
+			if vs.call != nil {
+				out = append(out, vcall{vs.call, vs.tr})
+			}
+		}
+		return out
+	}
 
 	// R08.1 ------------------------------------------------------------------------
 	r.Rule("R08.1", "booking a new/larger borrow needs the LTV check (asset (E)Ltv) and loan <= pool balance", 4)
@@ -196,8 +236,12 @@ func rulesC08(p *Prog, r *Report) {
 	}
 	liqGuard := p.cmpGuard("loan <= pool balance", func(v ssa.Value) bool { return !isBal(v) }, isBal, RLE)
 	for _, fn := range fns {
+		if isInlined(fn) {
+			continue
+		}
 		var sites []ssa.CallInstruction
-		for _, c := range calls(fn) {
+		for _, vc := range vcalls(fn) {
+			c := vc.c
 			if p.callIsFn(c, updBorrow) {
 				if b, ok := dirOf(c, 4); ok && b {
 					sites = append(sites, c)
@@ -305,24 +349,28 @@ func rulesC08(p *Prog, r *Report) {
 	// R08.3 ------------------------------------------------------------------------
 	r.Rule("R08.3", "totals update <=> pool custody movement of the same direction and amount (same function)", 10)
 	for _, fn := range fns {
+		if isInlined(fn) {
+			continue
+		}
 		var inAmts, outAmts []string
 		hasIn, hasOut := false, false
-		for _, c := range calls(fn) {
-			be := bankEffect(c)
+		for _, vc := range vcalls(fn) {
+			be := bankEffect(vc.c)
 			if be == nil {
 				continue
 			}
 			switch {
 			case (be.Op == "AccToMod" || be.Op == "ModToMod") && isPoolMod(be.To):
 				hasIn = true
-				inAmts = append(inAmts, p.amountKeys(be.Coins)...)
+				inAmts = append(inAmts, trAll(vc.tr, p.amountKeys(be.Coins))...)
 			case (be.Op == "ModToAcc" || be.Op == "ModToMod") && isPoolMod(be.From):
 				hasOut = true
-				outAmts = append(outAmts, p.amountKeys(be.Coins)...)
+				outAmts = append(outAmts, trAll(vc.tr, p.amountKeys(be.Coins))...)
 			}
 		}
 		n := 0
-		for _, c := range calls(fn) {
+		for _, vc := range vcalls(fn) {
+			c := vc.c
 			var dirIn bool
 			var what string
 			switch {
@@ -346,7 +394,7 @@ func rulesC08(p *Prog, r *Report) {
 			r.FuncsSeen[fname(fn)] = true
 			construct := fmt.Sprintf("%s %s #%d", fname(fn), what, n)
 			args := callArgs(c)
-			alts := altKeys(p, args[3])
+			alts := trAlts(vc.tr, altKeys(p, args[3]))
 			amts, has := outAmts, hasOut
 			dir := "out of"
 			if dirIn {
